@@ -368,6 +368,7 @@ func (c *Ctx) callByContract(st *State, fr *Frame, ins ssa.Instruction, ct *Cont
 // applyContract: assert pre, havoc frame, assume post; returns the (fresh) results.
 func (c *Ctx) applyContract(st *State, fr *Frame, ins ssa.Instruction, ct *Contract, f *ssa.Function, method *types.Func, sig *types.Signature, args []Value, key string) []Value {
 	env := &specEnv{c: c, st: st, vars: map[string]specVal{}, callee: true}
+	reachPre := c.reachPreQuery(st, fr, ins)
 	// bind parameter names
 	var names []string
 	var ptypes []types.Type
@@ -520,6 +521,18 @@ func (c *Ctx) applyContract(st *State, fr *Frame, ins ssa.Instruction, ct *Contr
 	}
 	env.post = true
 	env.st = st
+	env.calleeRecs = map[string]specVal{}
+	// waited(wg) speaks about what the executing goroutine has waited for: what a callee waited
+	// for, its caller has waited for too. The set only grows across the call.
+	for _, e := range ct.Ensures {
+		if mentionsFn(e.Expr, "waited") {
+			old := c.Arr(st, "Waited", ArraySort(SInt, SBool))
+			c.HavocFam(st, "Waited")
+			x := c.Reg.Fresh("q")
+			st.Assume(T(SBool, "(forall ((%s Int)) (=> (select %s %s) (select %s %s)))", x, old.S, x, st.arrays["Waited"].S, x))
+			break
+		}
+	}
 	for _, e := range ct.Ensures {
 		t, err := c.evalBool(env, e.Expr)
 		if err != nil {
@@ -528,6 +541,7 @@ func (c *Ctx) applyContract(st *State, fr *Frame, ins ssa.Instruction, ct *Contr
 		}
 		st.Assume(t)
 	}
+	c.emitReach(st, fr, ins, short, reachPre)
 	if ct.Extern || ct.Opts["iface"] != "" {
 		c.cur.externUsed[key] = true
 	} else {
@@ -1469,4 +1483,36 @@ func (c *Ctx) assumeChanInv(st *State, ch Term, v Term, ok Term, el types.Type) 
 			st.Assume(Implies(ok, t))
 		}
 	}
+}
+
+// mentionsCallRecord reports whether a clause speaks about the call history of the function it
+// belongs to.
+func mentionsCallRecord(n *SNode) bool {
+	if n == nil {
+		return false
+	}
+	if n.Op == "call" && (n.Text == "called" || n.Text == "callarg" || n.Text == "callres" || n.Text == "callrecv" || n.Text == "at") {
+		return true
+	}
+	for _, a := range n.Args {
+		if mentionsCallRecord(a) {
+			return true
+		}
+	}
+	return false
+}
+
+func mentionsFn(n *SNode, name string) bool {
+	if n == nil {
+		return false
+	}
+	if n.Op == "call" && n.Text == name {
+		return true
+	}
+	for _, a := range n.Args {
+		if mentionsFn(a, name) {
+			return true
+		}
+	}
+	return false
 }
